@@ -862,8 +862,10 @@ func (m MemoryFeatureSource) Read(options ReadOptions, emit Emit, ctx context.Co
 	}
 	c := make(chan Feature, cores)
 	ctx, cancel := context.WithCancel(ctx)
+	defer cancel()
 	var wg sync.WaitGroup
 	var cause error
+	var lock sync.Mutex
 	feed := func(goroutine int) {
 		defer wg.Done()
 		for {
@@ -873,8 +875,11 @@ func (m MemoryFeatureSource) Read(options ReadOptions, emit Emit, ctx context.Co
 			case f, ok := <-c:
 				if ok {
 					if err := emit(f, goroutine); err != nil {
+						lock.Lock()
 						cause = err
+						lock.Unlock()
 						cancel()
+						return
 					}
 				} else {
 					return
@@ -887,8 +892,13 @@ func (m MemoryFeatureSource) Read(options ReadOptions, emit Emit, ctx context.Co
 	for i := 0; i < cores; i++ {
 		go feed(i)
 	}
+produce:
 	for _, f := range m {
-		c <- f
+		select {
+		case c <- f:
+		case <-ctx.Done():
+			break produce
+		}
 	}
 	close(c)
 	wg.Wait()
